@@ -226,9 +226,12 @@ class Circuit:
             # Otherwise default to circuit
             else:
                 name = "Circuit"
-        # When grouping use unpacked circuit
-        if group:
+        # When grouping use unpacked circuit, otherwise still work on a copy
+        # so that the circuit being added is never modified
+        if group:  # noqa: SIM108
             circuit = circuit_copy
+        else:
+            circuit = circuit.copy()
         spec = circuit.__circuit_spec
         # Check circuit size is valid
         n_heralds = len(circuit.heralds["input"])
